@@ -30,6 +30,8 @@ TABLES = {
     'ascii': [('r0', [('i', 'integer'), ('s', 'string')], [{'i': 1, 's': 'a'}, {'i': 2, 's': 'b,c'}])],
     'multibyte': [('r0', [('s', 'string')], [{'s': 'é😀'}, {'s': 'ü'}, {'s': 'l1\nl2'}])],
     'empty': [('r0', [('i', 'integer')], [])],
+    'bad-rows': [('r0', [('i', 'integer'), ('s', 'string')], [{'i': 1, 's': 'a'}, {'i': 'x', 's': 'b'}, {'i': 3, 's': 'c'}, {'i': 'y', 's': 'd'}]),
+                 ('r1', [('i', 'integer')], [{'i': 'z'}])],
     'nonascii-names': [('r0', [('é😀', 'string'), ('ü', 'integer')], [{'é😀': 'x', 'ü': 1}])],
     'long': [('r0', [('i', 'integer'), ('s', 'string')], [{'i': k, 's': 'row-%05d-%s' % (k, 'x' * 20)} for k in range(700)])],
     'two': [('r0', [('i', 'integer')], [{'i': 1}]), ('r1', [('s', 'string')], [{'s': 'é'}, {'s': None}])],
@@ -63,6 +65,9 @@ def check(case):
         opts['add_filehash_to_path'] = True
     if 'pretty' in cfg:
         opts['pretty_descriptor'] = cfg['pretty']
+    if case['table'] == 'bad-rows':
+        # the dumper's own validator is told to drop uncastable rows: the counters must describe what was written
+        opts['validator_options'] = {'on_error': core.dataflows.base.schema_validator.drop}
     nm = names_for(cfg['counters'])
     label = 'dump_to_%s(%s) of table set %r' % (cfg['how'], cj({k: v for k, v in cfg.items() if k != 'how'}), case['table'])
     viol = []
@@ -104,7 +109,8 @@ def check(case):
             except Exception as e:
                 V('file-undecodable', '%s: %s cannot be decoded (%s: %s) - %d bytes on disk' % (r['name'], r['path'], type(e).__name__, str(e)[:60], facts['bytes']))
                 continue
-            exp_rows = len(TABLES[case['table']][i][2])
+            exp_rows = len([r for r in TABLES[case['table']][i][2] if not isinstance(r.get('i'), str)]) \
+                if case['table'] == 'bad-rows' else len(TABLES[case['table']][i][2])
             if nrows != exp_rows:
                 V('file-incomplete', '%s: the file holds %d rows, %d were dumped' % (r['name'], nrows, exp_rows))
             tot_rows += nrows
@@ -169,6 +175,29 @@ def check(case):
                 raise
             except Exception as e:
                 V('redump-raises', 're-dump of the loaded dump raises %s: %s' % (core.exc_sig(e), str(e)[:100]))
+        # the same Flow object processed again (fresh output location): identical counters and hashes
+        if cfg.get('rerun') and cfg['how'] == 'path':
+            try:
+                outs = []
+                loc = [None]
+
+                class Redirect(core.dataflows.dump_to_path):
+                    pass
+                step = core.dataflows.dump_to_path(os.path.join(d, 'rr'), **copy.deepcopy(opts))
+                flow = core.Flow(core.from_state(st), step)
+                for k in range(3):
+                    import shutil
+                    shutil.rmtree(os.path.join(d, 'rr'), ignore_errors=True)
+                    dp_k, stats_k = flow.process()
+                    wd = json.load(open(os.path.join(d, 'rr', 'datapackage.json'), encoding='utf-8'))
+                    outs.append((get_attr(wd, nm['datapackage-rowcount']), get_attr(wd, nm['datapackage-bytes']), get_attr(wd, nm['datapackage-hash']),
+                                 [get_attr(r, nm['resource-rowcount']) for r in wd['resources']], stats_k.get('count_of_rows')))
+                if len(set(map(cj, outs))) != 1:
+                    V('rerun-differs', 'the same Flow object processed three times records (rows, bytes, hash, per-resource rows, stats rows) = %r' % (outs,))
+            except core.CaseTimeout:
+                raise
+            except Exception as e:
+                V('rerun-raises', 'processing the same Flow object again raises %s: %s' % (core.exc_sig(e), str(e)[:100]))
         # dump after dump: different data dumped into the SAME location must be described by the descriptor found there
         if cfg.get('overwrite') and cfg['how'] == 'path':
             dd = os.path.join(d, 'first')
@@ -212,6 +241,8 @@ def cases(tier):
                         out.append({'table': table, 'cfg': {'format': fmt, 'how': how, 'counters': 'renamed', 'filehash': fh, 'pretty': pretty}})
                 out.append({'table': table, 'cfg': {'format': fmt, 'how': how, 'counters': 'default', 'pretty': False}})
             out.append({'table': table, 'cfg': {'format': fmt, 'how': 'path', 'counters': 'default', 'redump': True}})
+            out.append({'table': table, 'cfg': {'format': fmt, 'how': 'path', 'counters': 'default', 'rerun': True}})
+            out.append({'table': table, 'cfg': {'format': fmt, 'how': 'path', 'counters': 'dotted', 'rerun': True}})
             out.append({'table': table, 'cfg': {'format': fmt, 'how': 'path', 'counters': 'default', 'overwrite': True}})
             out.append({'table': table, 'cfg': {'format': fmt, 'how': 'path', 'counters': 'default', 'overwrite': True, 'filehash': True}})
             out.append({'table': table, 'cfg': {'format': fmt, 'how': 'path', 'counters': 'dotted', 'redump': True}})
